@@ -17,4 +17,5 @@ func main() {
 	idx.Drive(w, o, func(s string) string { return "(KId " + s + ")" })
 	idx.DriveBatches(w, o, func(s string) string { return "(KIdB " + s + ")" })
 	idx.DriveHeld(w, o, func(s string) string { return "(KHeld " + s + ")" })
+	idx.DriveWriteFault(w, o, func(s string) string { return "(KIdW " + s + ")" })
 }
